@@ -81,7 +81,8 @@ namespace chaiscript {
                       // We will not catch any bad_boxed_dynamic_cast that is thrown, let the user get it
                       // either way, we are not responsible if it doesn't work
                       vals[i] = t_conversions->boxed_type_conversion(m_types[i].second, t_conversions.saves(), vals[i]);
-                    } catch (...) {
+                    } catch (const std::bad_cast &) {
+                      // not applicable in this direction; exceptions of the user's conversion function pass through
                       try {
                         // try going the other way
                         vals[i] = t_conversions->boxed_type_down_conversion(m_types[i].second, t_conversions.saves(), vals[i]);
